@@ -11,6 +11,7 @@ import (
 	"io"
 	"math/rand"
 	"net"
+	"strings"
 	"sync"
 	"time"
 
@@ -405,6 +406,23 @@ func c07Gen(tier string, rng *rand.Rand) []c07Case {
 			cs = append(cs, c)
 		}
 	}
+	// a large packet (beyond any internal buffer size one might choose: 70-200 KiB) followed immediately by small ones, so that
+	// the large packet does not end on a read boundary
+	for i, side := range sides {
+		for j, mode := range []string{"coalesced", "random"} {
+			c := c07Case{Side: side, Max: 10485760, BadAt: -1, Kind: "legal/large-then-small/" + mode}
+			var stream []byte
+			for k, sz := range []int{70000 + rng.Intn(130000), 8 + rng.Intn(40), 4 + rng.Intn(60)} {
+				p := mkPacket(rng, sz, k)
+				c.Sent = append(c.Sent, p)
+				stream = append(stream, p...)
+			}
+			c.Chunks = toB(partition(rng, stream, mode))
+			if tier == "thorough" || (i+j)%2 == 0 {
+				cs = append(cs, c)
+			}
+		}
+	}
 	// graceful shutdown while a packet is half received (server side): the stream ends with that packet; the server is
 	// marked closed at a read timeout that fires inside it (after 1..len-1 of its bytes), further timeouts may follow
 	nsh := 12
@@ -443,6 +461,9 @@ func c07Gen(tier string, rng *rand.Rand) []c07Case {
 }
 
 func c07Coq(c *c07Case) string {
+	if strings.HasPrefix(c.Kind, "legal/large-then-small") { // 100 KiB streams: judged by the monitor only (evaluating the model on them costs half a minute)
+		return ""
+	}
 	return fmt.Sprintf("(%d, %s, %s, %s)", c.Max, hxB(c.Chunks), hxB(c.Delivered), coqBool(c.ClosedErr))
 }
 
@@ -451,11 +472,11 @@ func init() {
 		runProp(Prop[c07Case]{
 			ID: "C07", Require: "From TarsV Require Import Base.Hex Frame.Framing.", CaseType: "c07_case",
 			Mismatch: "failing_from c07_check", Corr: "Framing.c07_check (recv_loop = real tcpHandler.recv / connection.recv over a scripted net.Conn)",
-			Rule:    "generated streams of 1-12 length-prefixed packets (sizes 4, max-1, max, random) for max in {4,5,8,64,300,4096,10485760,2^31-1,2^31,2^32-1}, optionally followed by a proper prefix or an illegal length prefix (0-3, max+1, >max, 2^31.., 2^32-1) plus junk, partitioned into reads as single bytes / coalesced 4096-byte reads / cuts inside headers / random; run through the real server loop (1-worker pool: ordered; 1-worker pool with a queue of one and 3 ms handlers, so that bursts fill the queue: ordered; no pool: multiset) and the real client loop; plus server-side streams whose last packet is half received when graceful shutdown begins (server marked closed at a read timeout inside the packet); class = (side, max, stream kind, partition mode)",
+			Rule:    "generated streams of 1-12 length-prefixed packets (sizes 4, max-1, max, random) for max in {4,5,8,64,300,4096,10485760,2^31-1,2^31,2^32-1}, optionally followed by a proper prefix or an illegal length prefix (0-3, max+1, >max, 2^31.., 2^32-1) plus junk, partitioned into reads as single bytes / coalesced 4096-byte reads / cuts inside headers / random; run through the real server loop (1-worker pool: ordered; 1-worker pool with a queue of one and 3 ms handlers, so that bursts fill the queue: ordered; no pool: multiset) and the real client loop; plus child processes that load a server configuration with maxPackageLength = N through the application's own initialisation and report the framing functions' verdicts on packets of N and N+1 bytes; plus server-side streams whose last packet is half received when graceful shutdown begins (server marked closed at a read timeout inside the packet); class = (side, max, stream kind, partition mode)",
 			Shard:   80,
 			Workers: 1, // maxPackageLength is process-global
 			Gen:     c07Gen, Run: c07Run, Coq: c07Coq,
-			Extra:   c07Reconnect,
+			Extra:   func(tier string, rng *rand.Rand, res *Result) { c07Reconnect(tier, rng, res); c07Config(tier, rng, res) },
 			RunAll: func(cs []c07Case) [][]Failure {
 				fails := make([][]Failure, len(cs))
 				byMax := map[int][]int{}
